@@ -598,6 +598,54 @@ fn scenario_switch(c: &mut C) -> Result<(), Violation> {
             c.stats.inc("neigh.hardware-address-changed");
             announce(c, who, c.now + 1_000, 0, None);
         }
+        7 if c.tape.draw(3) == 0 => {
+            // route table change through the default-route helpers, both address families mixed: what counts for
+            // this node's family is its last add that no remove of the same family followed
+            let rt = c.node.iface.routes_mut();
+            guard("routes::update", || rt.update(|v| v.clear()))?;
+            let mut own: Option<IpAddr> = None;
+            let n = 2 + c.tape.draw(4);
+            for _ in 0..n {
+                let gw_host = if c.tape.draw(2) == 0 { 254 } else { 253 };
+                let k = c.tape.draw(4);
+                let rt = c.node.iface.routes_mut();
+                let v6 = c.v6;
+                match k {
+                    0 => {
+                        let g = ip_of(false, gw_host);
+                        let _ = guard("routes::add_default_ipv4_route", || rt.add_default_ipv4_route(smoltcp::wire::Ipv4Address::from(g.v4())))?;
+                        if !v6 {
+                            own = Some(g);
+                        }
+                    }
+                    1 => {
+                        let g = ip_of(true, gw_host);
+                        let _ = guard("routes::add_default_ipv6_route", || rt.add_default_ipv6_route(smoltcp::wire::Ipv6Address::from(g.v6())))?;
+                        if v6 {
+                            own = Some(g);
+                        }
+                    }
+                    2 => {
+                        let _ = guard("routes::remove_default_ipv4_route", || rt.remove_default_ipv4_route())?;
+                        if !v6 {
+                            own = None;
+                        }
+                    }
+                    _ => {
+                        let _ = guard("routes::remove_default_ipv6_route", || rt.remove_default_ipv6_route())?;
+                        if v6 {
+                            own = None;
+                        }
+                    }
+                }
+            }
+            let default = if c.v6 { IpAddr::V6([0; 16]) } else { IpAddr::V4([0; 4]) };
+            c.routes = match own {
+                Some(g) => vec![(default, 0, g, None)],
+                None => vec![],
+            };
+            c.stats.inc("neigh.default-route-helpers-used");
+        }
         7 | 8 => {
             // route table change
             let (sp, sl) = specific_prefix(c.v6);
